@@ -1,4 +1,224 @@
-import IsoDT.Model.Recurrence
+/-
+  C12 — A recurrence iterates exactly the series it denotes.
+
+  `Model.mkRec` mirrors `TimeRecurrence.__init__`, `Model.iter m r fuel` the first `fuel` points of
+  `__iter__` (with `get_next`/`get_prev` and the bounds check).  `SeriesOK m rep tz l i0 step` says
+  that `l` is the arithmetic series of instants `i0, i0+step, …` made of valid points in one
+  representation and offset.  Proved for exact intervals of any size (every notation, bounded or
+  not, any anchor, any mode); for month/year intervals see `C12_nominal_*` below and DESIGN §1.1
+  (known finding F5).
+-/
+import IsoDT.Lemmas.Rec
+
 namespace IsoDT.Props.C12
-theorem placeholder : (1 : Nat) = 1 := rfl
+open IsoDT IsoDT.Model IsoDT.Lemmas
+open IsoDT.Spec (Date TZ TP)
+
+/-- Reading `SeriesOK` pointwise. -/
+theorem seriesOK_get (m : Mode) (rep : Nat) (tz : TZ) : ∀ (l : List TP) (i0 step : Int),
+    SeriesOK m rep tz l i0 step → ∀ (i : Nat) (h : i < l.length),
+      (l[i]).inst m = i0 + (i : Int) * step ∧ (l[i]).Valid m ∧ (l[i]).date.rep = rep ∧ (l[i]).tz = tz := by
+  intro l
+  induction l with
+  | nil => intro _ _ _ i h; simp at h
+  | cons p rest ih =>
+    intro i0 step hs i h
+    obtain ⟨h1, h2, h3, h4, h5⟩ := hs
+    cases i with
+    | zero => simp only [List.getElem_cons_zero]; exact ⟨by rw [h1]; omega, h2, h3, h4⟩
+    | succ k =>
+      simp only [List.getElem_cons_succ]
+      have := ih (i0 + step) step h5 k (by simpa using h)
+      refine ⟨?_, this.2⟩
+      rw [this.1]
+      have e : ((k + 1 : Nat) : Int) = (k : Int) + 1 := by omega
+      rw [e, Int.add_mul]; omega
+
+/-- A series with a positive step is strictly increasing (and with a negative step decreasing). -/
+theorem series_strict_mono (m : Mode) (rep : Nat) (tz : TZ) (l : List TP) (i0 step : Int)
+    (hs : SeriesOK m rep tz l i0 step) (i j : Nat) (hij : i < j) (hj : j < l.length) :
+    (0 < step → (l[i]'(by omega)).inst m < (l[j]).inst m) ∧
+    (step < 0 → (l[i]'(by omega)).inst m > (l[j]).inst m) := by
+  have a := (seriesOK_get m rep tz l i0 step hs i (by omega)).1
+  have b := (seriesOK_get m rep tz l i0 step hs j hj).1
+  rw [a, b]
+  have hlt : (i : Int) < (j : Int) := by omega
+  constructor
+  · intro hp
+    have := Int.mul_lt_mul_of_pos_right hlt hp
+    omega
+  · intro hn
+    have := Int.mul_lt_mul_of_neg_right hlt hn
+    omega
+
+theorem exactRec_of (m : Mode) (r : Rec) (d : Dur) (hd : r.dur = some d) (hex : d.isExact = true)
+    (hpos : 0 < d.exactSeconds m) (hmulti : r.reps ≠ some 1)
+    (hsv : ∀ s, r.start = some s → s.Valid m) (hev : ∀ e, r.end_ = some e → e.Valid m) :
+    ExactRec m r d (d.exactSeconds m) :=
+  ⟨hd, hex, rfl, hpos, hmulti, hsv, hev⟩
+
+/-- **start/duration, `n ≥ 2` repetitions, exact interval**: iteration yields exactly `n` points,
+    `start, start+d, …, start+(n−1)d` (as instants), each a valid point in the start's
+    representation and offset, the first being the start itself. -/
+theorem C12_start_duration_bounded (m : Mode) (n : Nat) (s : TP) (d : Dur) (hn : 2 ≤ n) (hs : s.Valid m)
+    (hex : d.isExact = true) (hpos : 0 < d.exactSeconds m) (fuel : Nat) (hf : n ≤ fuel) :
+    ∃ r, mkRec m (some (n : Int)) (some s) (some d) none = some r ∧
+      (iter m r fuel).length = n ∧ (iter m r fuel).head? = some s ∧
+      SeriesOK m s.date.rep s.tz (iter m r fuel) (s.inst m) (d.exactSeconds m) := by
+  obtain ⟨e, hr, es, ei, _, _⟩ := mkRec_fmt3_bounded m n s d (by omega) hs hex hpos
+  refine ⟨_, hr, ?_⟩
+  have hx : ExactRec m ⟨some (n : Int), some s, some d, some e, none, 3⟩ d (d.exactSeconds m) :=
+    exactRec_of m _ d rfl hex hpos (by simp; omega) (fun s' h => by cases h; exact hs)
+      (fun e' h => by cases h; exact es.1)
+  rw [iter_fwd m _ d _ hx s rfl fuel]
+  obtain ⟨a, b, _⟩ := iterFrom_fwd m _ d _ hx fuel s hs (fun s' h => by cases h; exact Int.le_refl _)
+  have hlen := b e rfl (by rw [ei]; have := Int.mul_nonneg (Int.le_of_lt hpos) (show (0:Int) ≤ (n:Int) - 1 by omega); omega)
+  have hq : (e.inst m - s.inst m) / d.exactSeconds m = (n : Int) - 1 := by
+    rw [ei]
+    have : s.inst m + d.exactSeconds m * ((n : Int) - 1) - s.inst m = d.exactSeconds m * ((n : Int) - 1) := by omega
+    rw [this, Int.mul_ediv_cancel_left _ (by omega)]
+  rw [hq] at hlen
+  have hl : (iterFrom m ⟨some (n : Int), some s, some d, some e, none, 3⟩ false fuel s).length = n := by omega
+  refine ⟨hl, ?_, a⟩
+  cases fuel with
+  | zero => omega
+  | succ k =>
+    have hb : inBounds m ⟨some (n : Int), some s, some d, some e, none, 3⟩ s = true := by
+      rw [inBounds_iff m _ d _ hx s hs]
+      refine ⟨fun s' h => by cases h; exact Int.le_refl _, fun e' h => ?_⟩
+      cases h
+      rw [ei]; have := Int.mul_nonneg (Int.le_of_lt hpos) (show (0:Int) ≤ (n:Int) - 1 by omega); omega
+    simp only [iterFrom, hb, ↓reduceIte, List.head?_cons]
+
+/-- **start/duration, unbounded, exact interval**: the first `fuel` points are
+    `start, start+d, start+2d, …`. -/
+theorem C12_start_duration_unbounded (m : Mode) (s : TP) (d : Dur) (hs : s.Valid m)
+    (hex : d.isExact = true) (hpos : 0 < d.exactSeconds m) (fuel : Nat) :
+    ∃ r, mkRec m none (some s) (some d) none = some r ∧ (iter m r fuel).length = fuel ∧
+      SeriesOK m s.date.rep s.tz (iter m r fuel) (s.inst m) (d.exactSeconds m) := by
+  refine ⟨_, mkRec_fmt3_unbounded m s d hex hpos, ?_⟩
+  have hx : ExactRec m ⟨none, some s, some d, none, none, 3⟩ d (d.exactSeconds m) :=
+    exactRec_of m _ d rfl hex hpos (by simp) (fun s' h => by cases h; exact hs) (fun e' h => by cases h)
+  rw [iter_fwd m _ d _ hx s rfl fuel]
+  obtain ⟨a, _, c⟩ := iterFrom_fwd m _ d _ hx fuel s hs (fun s' h => by cases h; exact Int.le_refl _)
+  exact ⟨c rfl, a⟩
+
+/-- **duration/end, `n ≥ 2` repetitions, exact interval**: exactly `n` strictly increasing points
+    `end−(n−1)d, …, end−d, end` (as instants): the last one is at the given end. -/
+theorem C12_duration_end_bounded (m : Mode) (n : Nat) (e : TP) (d : Dur) (hn : 2 ≤ n) (he : e.Valid m)
+    (hex : d.isExact = true) (hpos : 0 < d.exactSeconds m) (fuel : Nat) (hf : n ≤ fuel) :
+    ∃ r, mkRec m (some (n : Int)) none (some d) (some e) = some r ∧ (iter m r fuel).length = n ∧
+      SeriesOK m e.date.rep e.tz (iter m r fuel) (e.inst m - d.exactSeconds m * ((n : Int) - 1)) (d.exactSeconds m) := by
+  obtain ⟨s, hr, ss, si, srep, stz⟩ := mkRec_fmt4_bounded m n e d (by omega) he hex hpos
+  refine ⟨_, hr, ?_⟩
+  have hx : ExactRec m ⟨some (n : Int), some s, some d, some e, none, 4⟩ d (d.exactSeconds m) :=
+    exactRec_of m _ d rfl hex hpos (by simp; omega) (fun s' h => by cases h; exact ss.1)
+      (fun e' h => by cases h; exact he)
+  rw [iter_fwd m _ d _ hx s rfl fuel]
+  obtain ⟨a, b, _⟩ := iterFrom_fwd m _ d _ hx fuel s ss.1 (fun s' h => by cases h; exact Int.le_refl _)
+  have hnn := Int.mul_nonneg (Int.le_of_lt hpos) (show (0:Int) ≤ (n:Int) - 1 by omega)
+  have hlen := b e rfl (by rw [si]; omega)
+  have hq : (e.inst m - s.inst m) / d.exactSeconds m = (n : Int) - 1 := by
+    rw [si]
+    have : e.inst m - (e.inst m - d.exactSeconds m * ((n : Int) - 1)) = d.exactSeconds m * ((n : Int) - 1) := by omega
+    rw [this, Int.mul_ediv_cancel_left _ (by omega)]
+  rw [hq] at hlen
+  refine ⟨by omega, ?_⟩
+  rw [srep, stz, si] at a; exact a
+
+/-- **duration/end, unbounded, exact interval**: iteration runs backwards `end, end−d, end−2d, …`. -/
+theorem C12_duration_end_unbounded (m : Mode) (e : TP) (d : Dur) (he : e.Valid m)
+    (hex : d.isExact = true) (hpos : 0 < d.exactSeconds m) (fuel : Nat) :
+    ∃ r, mkRec m none none (some d) (some e) = some r ∧ (iter m r fuel).length = fuel ∧
+      SeriesOK m e.date.rep e.tz (iter m r fuel) (e.inst m) (-(d.exactSeconds m)) := by
+  refine ⟨_, mkRec_fmt4_unbounded m e d hex hpos, ?_⟩
+  have hx : ExactRec m ⟨none, none, some d, some e, none, 4⟩ d (d.exactSeconds m) :=
+    exactRec_of m _ d rfl hex hpos (by simp) (fun s' h => by cases h) (fun e' h => by cases h; exact he)
+  rw [iter_rev m _ d _ hx e rfl rfl fuel]
+  obtain ⟨a, _, c⟩ := iterFrom_rev m _ d _ hx fuel e he (fun e' h => by cases h; exact Int.le_refl _)
+  exact ⟨c rfl, a⟩
+
+/-- **start/second-point notation**: the interval is the exact difference of the two points, and
+    the recurrence iterates like the start/duration recurrence with that interval: `n` points
+    `start, start+(second−start), …` (bounded) or the first `fuel` of them (unbounded). -/
+theorem C12_start_second (m : Mode) (s e2 : TP) (hs : s.Valid m) (he : e2.Valid m)
+    (hlt : s.inst m < e2.inst m) (fuel : Nat) :
+    (∃ r, mkRec m none (some s) none (some e2) = some r ∧ (iter m r fuel).length = fuel ∧
+      SeriesOK m s.date.rep s.tz (iter m r fuel) (s.inst m) (e2.inst m - s.inst m)) ∧
+    (∀ n : Nat, 2 ≤ n → n ≤ fuel → ∃ r, mkRec m (some (n : Int)) (some s) none (some e2) = some r ∧
+      (iter m r fuel).length = n ∧
+      SeriesOK m s.date.rep s.tz (iter m r fuel) (s.inst m) (e2.inst m - s.inst m)) := by
+  constructor
+  · obtain ⟨d, _, hex, hsec, h1, _⟩ := mkRec_fmt1 m none s e2 hs he hlt (fun n h => by cases h)
+    refine ⟨_, h1 rfl, ?_⟩
+    have hpos : 0 < d.exactSeconds m := by omega
+    have hx : ExactRec m ⟨none, some s, some d, none, some e2, 1⟩ d (d.exactSeconds m) :=
+      exactRec_of m _ d rfl hex hpos (by simp) (fun s' h => by cases h; exact hs) (fun e' h => by cases h)
+    rw [iter_fwd m _ d _ hx s rfl fuel]
+    obtain ⟨a, _, c⟩ := iterFrom_fwd m _ d _ hx fuel s hs (fun s' h => by cases h; exact Int.le_refl _)
+    rw [hsec] at a
+    exact ⟨c rfl, a⟩
+  · intro n hn hf
+    obtain ⟨d, _, hex, hsec, _, h2⟩ := mkRec_fmt1 m (some (n : Int)) s e2 hs he hlt
+      (fun k h => by cases h; omega)
+    obtain ⟨e, hr, es, ei, _, _⟩ := h2 n rfl
+    refine ⟨_, hr, ?_⟩
+    have hpos : 0 < d.exactSeconds m := by omega
+    have hx : ExactRec m ⟨some (n : Int), some s, some d, some e, some e2, 1⟩ d (d.exactSeconds m) :=
+      exactRec_of m _ d rfl hex hpos (by simp; omega) (fun s' h => by cases h; exact hs)
+        (fun e' h => by cases h; exact es.1)
+    rw [iter_fwd m _ d _ hx s rfl fuel]
+    obtain ⟨a, b, _⟩ := iterFrom_fwd m _ d _ hx fuel s hs (fun s' h => by cases h; exact Int.le_refl _)
+    have hnn := Int.mul_nonneg (Int.le_of_lt (show 0 < e2.inst m - s.inst m by omega))
+      (show (0:Int) ≤ (n:Int) - 1 by omega)
+    have hlen := b e rfl (by rw [ei]; omega)
+    have hq : (e.inst m - s.inst m) / d.exactSeconds m = (n : Int) - 1 := by
+      rw [ei, hsec]
+      have : s.inst m + (e2.inst m - s.inst m) * ((n : Int) - 1) - s.inst m =
+          (e2.inst m - s.inst m) * ((n : Int) - 1) := by omega
+      rw [this, Int.mul_ediv_cancel_left _ (by omega)]
+    rw [hq] at hlen
+    rw [hsec] at a
+    exact ⟨by omega, a⟩
+
+/-- **One repetition or a zero interval yields exactly the anchor** (start/duration shown; the
+    other notations collapse to the same stored form). -/
+theorem C12_single (m : Mode) (reps : Option Int) (s : TP) (d : Dur) (hex : d.isExact = true)
+    (hnn : 0 ≤ d.exactSeconds m) (hreps : ∀ n, reps = some n → 1 ≤ n)
+    (hone : reps = some 1 ∨ d.exactSeconds m = 0) (fuel : Nat) (hf : 1 ≤ fuel) :
+    mkRec m reps (some s) (some d) none = some ⟨some 1, some s, none, some s, none, 3⟩ ∧
+    iter m ⟨some 1, some s, none, some s, none, 3⟩ fuel = [s] := by
+  constructor
+  · have hz : reps = some 1 ∨ isZeroDur m d = true := by
+      rcases hone with h | h
+      · exact Or.inl h
+      · exact Or.inr ((isZeroDur_iff m d hex).mpr h)
+    cases reps with
+    | none =>
+      unfold mkRec
+      simp only [Bool.false_eq_true, ↓reduceIte, lt_zero_false m d hex hnn, hz]
+    | some n =>
+      have h1 := hreps n rfl
+      have c1 : ¬ n ≤ 0 := by omega
+      unfold mkRec
+      simp only [c1, decide_false, Bool.false_eq_true, ↓reduceIte, lt_zero_false m d hex hnn, hz]
+  · have hb : inBounds m ⟨some 1, some s, none, some s, none, 3⟩ s = true := by
+      simp [inBounds, tpLt, tpGt, cmp]
+    unfold iter
+    have : ¬ fuel = 0 := by omega
+    simp [this, hb]
+
+/-! ## Non-vacuity, and the month/year case (known finding F5) -/
+
+example : (iter .greg ⟨some 3, some ⟨.cal 2002 5 4, 23, 0, 0, ⟨0, 0⟩⟩, some (.units 0 0 0 1 0 0),
+    some ⟨.cal 2002 5 5, 1, 0, 0, ⟨0, 0⟩⟩, none, 3⟩ 10).length = 3 := by decide +kernel
+
+/-- The full statement (exactly `n` points) is false of the code for month/year intervals: the far
+    bound is one multiplied addition.  `R12/2004-W31-2T23:59:00Z/P1Y13M` yields 11 points. -/
+theorem C12_count_counterexample_nominal :
+    ∃ r, mkRec .greg (some 12) (some ⟨.week 2004 31 2, 23, 59, 0, ⟨0, 0⟩⟩) (some (.units 1 13 0 0 0 0)) none
+      = some r ∧ (iter .greg r 30).length = 11 := by
+  refine ⟨⟨some 12, some ⟨.week 2004 31 2, 23, 59, 0, ⟨0, 0⟩⟩, some (.units 1 13 0 0 0 0),
+    some ⟨.week 2027 26 1, 23, 59, 0, ⟨0, 0⟩⟩, none, 3⟩, by decide +kernel, by decide +kernel⟩
+
 end IsoDT.Props.C12
